@@ -11,12 +11,13 @@ Section Fetch.
 Variable body : Type.
 Variable hashes_to : body -> cid -> bool.
 Variable links_of : body -> option (list edge).
+Variable verifiable : cid -> bool.
 
 Notation bstore := (bstore body).
 Notation bget := (bget body).
 Notation local_ok := (local_ok body hashes_to links_of).
 Notation fetch_block := (fetch_block body hashes_to links_of).
-Notation fwalk := (fwalk body hashes_to links_of).
+Notation fwalk := (fwalk body hashes_to links_of verifiable).
 Notation sound := (sound body hashes_to).
 Notation bad_answer := (bad_answer body hashes_to).
 Notation responder := (responder body).
@@ -133,6 +134,7 @@ Definition fwalk_kids (f : nat) (resp : responder) (v : view) (stop : option cid
 
 Lemma fwalk_unfold f resp v stop lim c reqs s :
   fwalk (S f) resp v stop lim c reqs s =
+  if negb (verifiable c) then FO body [] reqs s (FUnverifiable c) else
   match fetch_block resp reqs c s with
   | (reqs1, s1, None) => FO body [] reqs1 s1 (FBad c)
   | (reqs1, s1, Some b) =>
@@ -152,6 +154,7 @@ Proof.
   induction fuel as [|f IH]; intros lim c reqs s.
   - cbn. split; [apply ext_refl|contradiction].
   - cbv zeta. rewrite fwalk_unfold.
+    destruct (verifiable c); cbn [negb]; [|cbn; split; [apply ext_refl|contradiction]].
     pose proof (fetch_block_sound resp reqs c s) as F.
     destruct (fetch_block resp reqs c s) as [[reqs1 s1] ob]. destruct F as [E Hc].
     destruct ob as [b|]; [|cbn; split; [exact E|contradiction]].
@@ -186,6 +189,9 @@ Proof.
   - cbn. split; [exists []; now rewrite app_nil_r|].
     intros i x Hi Hn. apply nth_error_Some_lt in Hn. lia.
   - cbv zeta. rewrite fwalk_unfold.
+    destruct (verifiable c); cbn [negb].
+    2:{ cbn. split; [exists []; now rewrite app_nil_r|].
+        intros i x Hi Hn. apply nth_error_Some_lt in Hn. lia. }
     pose proof (fetch_block_reqs resp reqs c s) as F.
     destruct (fetch_block resp reqs c s) as [[reqs1 s1] ob].
     (* after the root's fetch: the log is reqs or reqs ++ [c]; if the fetch succeeded all
@@ -249,10 +255,10 @@ Qed.
 
 (* ---- handler.handle ---- *)
 
-Notation fhandle_plain := (fhandle_plain body hashes_to links_of).
-Notation fseg_loop := (fseg_loop body hashes_to links_of).
-Notation fhandle := (fhandle body hashes_to links_of).
-Notation fsyncs := (fsyncs body hashes_to links_of).
+Notation fhandle_plain := (fhandle_plain body hashes_to links_of verifiable).
+Notation fseg_loop := (fseg_loop body hashes_to links_of verifiable).
+Notation fhandle := (fhandle body hashes_to links_of verifiable).
+Notation fsyncs := (fsyncs body hashes_to links_of verifiable).
 
 Lemma calls_of_In h order x : In x (calls_of h order) -> In x order.
 Proof. unfold calls_of. destruct (has_hook h); [auto|contradiction]. Qed.
@@ -386,6 +392,111 @@ Proof.
       as (A & B & C & _ & D). auto.
 Qed.
 
+(* ---- a body is committed only if its digest was actually computed, and equal ---- *)
+
+(* an entry of s' was in s, or was committed for a CID whose hash function is available and
+   to which the body hashes *)
+Definition verified_ext (s s' : bstore) : Prop :=
+  forall e, In e s' -> In e s \/ (verifiable (fst e) = true /\ hashes_to (snd e) (fst e) = true).
+
+Lemma verified_ext_refl s : verified_ext s s.
+Proof. intros e H. left. exact H. Qed.
+
+Lemma verified_ext_trans a b c : verified_ext a b -> verified_ext b c -> verified_ext a c.
+Proof. intros H1 H2 e He. destruct (H2 e He) as [H|H]; [apply H1; exact H|right; exact H]. Qed.
+
+Lemma fetch_block_commits resp reqs c s :
+  verifiable c = true ->
+  let '(reqs1, s1, ob) := fetch_block resp reqs c s in verified_ext s s1.
+Proof.
+  intro V. unfold C02_FetchVerify.fetch_block. destruct (local_ok s c); [apply verified_ext_refl|].
+  destruct (resp (length reqs)) as [b|]; [|apply verified_ext_refl].
+  destruct (hashes_to b c) eqn:H; [|apply verified_ext_refl].
+  intros e [<-|He]; [right; cbn; auto|left; exact He].
+Qed.
+
+(* a CID naming an unavailable hash function is refused at once: nothing is requested,
+   stored or reported *)
+Theorem unverifiable_is_refused f resp v stop lim c reqs s :
+  verifiable c = false ->
+  fwalk (S f) resp v stop lim c reqs s = FO body [] reqs s (FUnverifiable c).
+Proof. intro V. rewrite fwalk_unfold, V. reflexivity. Qed.
+
+Lemma fwalk_verified resp v stop : forall fuel lim c reqs s,
+  let o := fwalk fuel resp v stop lim c reqs s in
+  verified_ext s (f_store body o) /\ (forall x, In x (f_order body o) -> verifiable x = true).
+Proof.
+  induction fuel as [|f IH]; intros lim c reqs s.
+  - cbn. split; [apply verified_ext_refl|contradiction].
+  - cbv zeta. rewrite fwalk_unfold.
+    destruct (verifiable c) eqn:V; cbn [negb]; [|cbn; split; [apply verified_ext_refl|contradiction]].
+    pose proof (fetch_block_commits resp reqs c s V) as F.
+    destruct (fetch_block resp reqs c s) as [[reqs1 s1] ob].
+    destruct ob as [b|]; [|cbn; split; [exact F|contradiction]].
+    destruct (links_of b) as [es|]; [|cbn; split; [exact F|contradiction]].
+    assert (K : forall l acc,
+      verified_ext s (f_store body acc) -> (forall x, In x (f_order body acc) -> verifiable x = true) ->
+      let o := fwalk_kids f resp v stop lim l acc in
+      verified_ext s (f_store body o) /\ (forall x, In x (f_order body o) -> verifiable x = true)).
+    { induction l as [|e r IHl]; intros acc E1 H1; [cbn; auto|].
+      cbn [fwalk_kids]. destruct (is_stop stop e || negb (deeper lim)); [apply IHl; assumption|].
+      destruct (IH (dec_lim lim) e (f_reqs body acc) (f_store body acc)) as [E2 H2].
+      set (o := fwalk f resp v stop (dec_lim lim) e (f_reqs body acc) (f_store body acc)) in *.
+      assert (E3 : verified_ext s (f_store body o)) by (eapply verified_ext_trans; eassumption).
+      assert (H3 : forall x, In x (f_order body acc ++ f_order body o) -> verifiable x = true).
+      { intros x Hx. apply in_app_or in Hx as [Hx|Hx]; auto. }
+      destruct (f_res body o); try (cbn; split; assumption).
+      apply IHl; cbn; assumption. }
+    apply K; cbn; [exact F|]. intros x [<-|[]]. exact V.
+Qed.
+
+Lemma fseg_loop_verified wfuel resp v stop orig segdl h s0 : forall fuel nd dsf next acc,
+  verified_ext s0 (fh_store body acc) -> (forall x, In x (fh_hooks body acc) -> verifiable x = true) ->
+  let o := fseg_loop fuel wfuel resp v stop orig segdl h nd dsf next acc in
+  verified_ext s0 (fh_store body o) /\ (forall x, In x (fh_hooks body o) -> verifiable x = true).
+Proof.
+  induction fuel as [|f IH]; intros nd dsf next acc E H; [cbn; auto|].
+  cbn [C02_FetchVerify.fseg_loop].
+  destruct (fwalk_verified resp v stop wfuel (Some nd) next (fh_reqs body acc) (fh_store body acc)) as [E2 H2].
+  set (o := fwalk wfuel resp v stop (Some nd) next (fh_reqs body acc) (fh_store body acc)) in *.
+  assert (E3 : verified_ext s0 (f_store body o)) by (eapply verified_ext_trans; eassumption).
+  destruct (f_res body o); try (cbn; split; assumption).
+  assert (H3 : forall x, In x (fh_hooks body acc ++ f_order body o) -> verifiable x = true).
+  { intros x Hx. apply in_app_or in Hx as [Hx|Hx]; auto. }
+  destruct (fnominated body links_of (f_store body o) h (f_order body o)) as [n|]; [|cbn; split; assumption].
+  destruct (is_stop stop n); [cbn; split; assumption|].
+  destruct orig as [D|].
+  - destruct (D <=? dsf + nd)%nat; [cbn; split; assumption|]. apply IH; cbn; assumption.
+  - apply IH; cbn; assumption.
+Qed.
+
+Lemma fhandle_verified fuel resp q s :
+  let o := fhandle fuel resp q s in
+  verified_ext s (fh_store body o) /\ (forall x, In x (fh_hooks body o) -> verifiable x = true).
+Proof.
+  unfold C02_FetchVerify.fhandle. destruct (seg_enabled (fs_segdl q) (fs_hook q) (fs_lim q)).
+  - apply fseg_loop_verified; cbn; [apply verified_ext_refl|contradiction].
+  - unfold C02_FetchVerify.fhandle_plain.
+    destruct (fwalk_verified resp (fs_view q) (fs_stop q) fuel (fs_lim q) (fs_head q) [] s) as [E H].
+    destruct (f_res body (fwalk fuel resp (fs_view q) (fs_stop q) (fs_lim q) (fs_head q) [] s)); cbn; (split; [exact E|]); try contradiction.
+    intros x Hx. apply H. eapply calls_of_In. exact Hx.
+Qed.
+
+(* whatever the publisher answers, over any sequence of syncs: every entry the syncs add to
+   the store is for a CID whose hash function is available and to which the body hashes; and
+   the hook is never called for a CID whose hash function is unavailable *)
+Theorem unverifiable_is_rejected_proved :
+  (forall fuel (l : list (responder * fsync)) s e,
+     In e (fsyncs fuel l s) -> In e s \/ (verifiable (fst e) = true /\ hashes_to (snd e) (fst e) = true)) /\
+  (forall fuel resp q s x, In x (fh_hooks body (fhandle fuel resp q s)) -> verifiable x = true).
+Proof.
+  split.
+  - intros fuel l. induction l as [|[resp q] r IH]; intros s e He; [left; exact He|].
+    cbn [C02_FetchVerify.fsyncs] in He. destruct (IH _ e He) as [H|H]; [|right; exact H].
+    destruct (fhandle_verified fuel resp q s) as [E _]. apply E. exact H.
+  - intros fuel resp q s x Hx. destruct (fhandle_verified fuel resp q s) as [_ H]. apply H. exact Hx.
+Qed.
+
 End Fetch.
 
 (* ================================================================ *)
@@ -398,6 +509,7 @@ Variable cid_fn : cid -> N.
 Variable cid_len : cid -> nat.
 Variable cid_digest : cid -> bytes.
 Variable links_of : bytes -> option (list edge).
+Variable verifiable : cid -> bool.
 
 Definition trunc_hashes_to (b : bytes) (c : cid) : bool :=
   bytes_eqb (firstn (cid_len c) (H (cid_fn c) b)) (cid_digest c).
@@ -405,11 +517,11 @@ Definition trunc_hashes_to (b : bytes) (c : cid) : bool :=
 Theorem truncated_digest_proved :
   forall fuel l s,
     sound bytes trunc_hashes_to s = true ->
-    forall c b, In (c, b) (fsyncs bytes trunc_hashes_to links_of fuel l s) ->
+    forall c b, In (c, b) (fsyncs bytes trunc_hashes_to links_of verifiable fuel l s) ->
       firstn (cid_len c) (H (cid_fn c) b) = cid_digest c.
 Proof.
   intros fuel l s Hs c b Hin.
-  pose proof (store_sound_proved bytes trunc_hashes_to links_of fuel l s Hs) as S.
+  pose proof (store_sound_proved bytes trunc_hashes_to links_of verifiable fuel l s Hs) as S.
   unfold sound in S. rewrite forallb_forall in S. specialize (S (c, b) Hin).
   unfold sound_entry, trunc_hashes_to in S. cbn in S. apply bytes_eqb_eq. exact S.
 Qed.
@@ -423,18 +535,18 @@ Definition ex_q := FSYNC VPrev None None (-1) HNominate 3.
 
 (* request 1 (block 2) answered with block 1's bytes: error, block 2 not stored, no hook *)
 Example ex_bad :
-  let o := fhandle N sym_hashes_to (sym_links_of ex_dag) 4 (sym_responder [Some 3; Some 1; Some 1]) ex_q [] in
+  let o := fhandle N sym_hashes_to (sym_links_of ex_dag) (sym_verifiable []) 4 (sym_responder [Some 3; Some 1; Some 1]) ex_q [] in
   fh_err N o = Some (FBad 2) /\ fh_reqs N o = [3; 2] /\ fh_hooks N o = [] /\ fh_store N o = [(3, 3)] /\
   sound N sym_hashes_to (fh_store N o) = true.
 Proof. vm_compute. repeat split; reflexivity. Qed.
 
 Example ex_good :
-  let o := fhandle N sym_hashes_to (sym_links_of ex_dag) 4 (sym_responder [Some 3; Some 2; Some 1]) ex_q [] in
+  let o := fhandle N sym_hashes_to (sym_links_of ex_dag) (sym_verifiable []) 4 (sym_responder [Some 3; Some 2; Some 1]) ex_q [] in
   fh_err N o = None /\ fh_hooks N o = [3; 2; 1] /\ sound N sym_hashes_to (fh_store N o) = true.
 Proof. vm_compute. repeat split; reflexivity. Qed.
 
 (* a corrupt entry that was there before is not trusted: the block is fetched again *)
 Example ex_corrupt_prestored :
-  let o := fhandle N sym_hashes_to (sym_links_of ex_dag) 4 (sym_responder [Some 3; Some 2; Some 1]) ex_q [(2, 77)] in
+  let o := fhandle N sym_hashes_to (sym_links_of ex_dag) (sym_verifiable []) 4 (sym_responder [Some 3; Some 2; Some 1]) ex_q [(2, 77)] in
   fh_err N o = None /\ fh_reqs N o = [3; 2; 1] /\ bget N (fh_store N o) 2 = Some 2.
 Proof. vm_compute. repeat split; reflexivity. Qed.
